@@ -712,6 +712,29 @@ pub struct EmptyRec {
     pub fired: Option<u64>,
 }
 
+/// One quiescence round: after `after` (the last sender operation has returned) nothing
+/// touches the channel but the receiver; `q` is taken once the receiver has begun
+/// `QUIESCE_IDLE_STEPS` further idle waits (None: the watchdog / poll budget expired first).
+#[derive(Clone, Debug)]
+pub struct QRec {
+    pub after: u64,
+    pub q: Option<u64>,
+    pub idle_steps_seen: u64,
+    pub item: Id,
+    pub op: SendKind,
+    pub accepted: bool,
+    pub aim: TailAim,
+    /// index into `History::flushes` of the callback flush requested right after the operation
+    pub flush: Option<usize>,
+}
+
+/// Idle waits the receiver must have begun before a pending item counts as "not taken". Two
+/// are enough on paper (the first may follow an empty pass that preceded the push); three is
+/// generous.
+pub const QUIESCE_IDLE_STEPS: u64 = 3;
+
+static QUIESCE_EXPIRED: AtomicU32 = AtomicU32::new(0);
+
 pub const ROLE_MAIN: u8 = 0;
 pub const ROLE_RECV: u8 = 1;
 pub const ROLE_SENDER0: u8 = 10;
@@ -744,6 +767,7 @@ pub struct History {
     pub model: Option<ModelEnd>,
     /// panics that escaped a channel API call made by an actor: (operation, message)
     pub panics: Vec<(String, String)>,
+    pub quiesce: Vec<QRec>,
 }
 
 impl History {
@@ -1735,8 +1759,75 @@ pub fn run_concurrent(plan: &Plan, delays: bool) -> History {
             pending_e.extend(h.join().expect("watcher thread"));
         }
     });
-    // quiescence: close the channel and wait for the receiver
 
+    // quiescence rounds: one last sender operation, then nothing but the receiver idling;
+    // whatever was accepted must be handed to the processor without any further activity
+    let mut quiesce: Vec<QRec> = Vec::new();
+    if plan.drop_after_polls.is_none() && QUIESCE_EXPIRED.load(SeqCst) < 6 {
+        let tail_who = plan.senders.len() as u8;
+        let tail_flusher = plan.flushers.len() as u8;
+        let mut rt_slot: Rt = None;
+        for (n, t) in plan.tail.iter().enumerate() {
+            ROLE.with(|r| r.set(ROLE_SENDER0 + tail_who));
+            let mut aimed = false;
+            if delays {
+                match t.aim {
+                    TailAim::PreCall(w) => aimed = sc.aim_n(w, 30_000),
+                    TailAim::AtLock(w) => LOCK_AIM.with(|l| l.set(w)),
+                    TailAim::None => {}
+                }
+            }
+            let id = Id { sc: uid, who: tail_who, n: n as u32 };
+            let rec = do_send(&sender, id, t.op, &mut rt_slot);
+            LOCK_AIM.with(|l| l.set(u8::MAX));
+            if aimed {
+                sc.ack();
+            }
+            let flush = if t.flush {
+                ROLE.with(|r| r.set(ROLE_FLUSHER0 + tail_flusher));
+                pending_f.push(do_flush(&sender, uid, tail_flusher, FOp::Callback, &mut rt_slot));
+                Some(pending_f.len() - 1)
+            } else {
+                None
+            };
+            ROLE.with(|r| r.set(ROLE_MAIN));
+            let after = stamp();
+            let base = sc.idle_steps.load(SeqCst);
+            let t0 = std::time::Instant::now();
+            let watchdog = Duration::from_secs(if cfg!(miri) { 120 } else { 5 });
+            let mut q = None;
+            let mut i = 0u32;
+            loop {
+                if sc.idle_steps.load(SeqCst) >= base + QUIESCE_IDLE_STEPS {
+                    q = Some(stamp());
+                    break;
+                }
+                i += 1;
+                if cfg!(miri) {
+                    thread::sleep(Duration::from_micros(100));
+                } else if i % 64 == 0 {
+                    if t0.elapsed() > watchdog {
+                        break;
+                    }
+                    thread::sleep(Duration::from_micros(50));
+                } else {
+                    thread::yield_now();
+                }
+                if cfg!(miri) && i % 64 == 0 && t0.elapsed() > watchdog {
+                    break;
+                }
+            }
+            let seen = sc.idle_steps.load(SeqCst) - base;
+            quiesce.push(QRec { after, q, idle_steps_seen: seen, item: rec.id, op: rec.kind, accepted: rec.accepted, aim: t.aim, flush });
+            sends.push(rec);
+            if q.is_none() {
+                QUIESCE_EXPIRED.fetch_add(1, SeqCst);
+                break;
+            }
+        }
+    }
+
+    // close the channel and wait for the receiver
     let sender_dropped = stamp();
     drop(sender);
     let (recv_exit, recv_dropped_early) = match handle {
@@ -1787,6 +1878,7 @@ pub fn run_concurrent(plan: &Plan, delays: bool) -> History {
         stuck: None,
         model: None,
         panics: take_panics(uid),
+        quiesce,
     }
 }
 
@@ -1837,6 +1929,8 @@ pub struct Seq {
     snapshots: u64,
     injected: u64,
     steps: u64,
+    /// receiver polls to run at the lock point of the next top-level sender operation
+    lock_polls: u8,
 }
 
 impl Seq {
@@ -1892,8 +1986,20 @@ impl Seq {
                 let who = (op.role - ROLE_SENDER0) as usize;
                 let id = Id { sc: self.uid, who: who as u8, n: self.counters[who] };
                 self.counters[who] += 1;
+                // let the receiver run while this sender sits right before its lock acquisition
+                // (only has an effect for top-level operations: the receiver future is parked)
+                let lp = std::mem::take(&mut self.lock_polls);
+                LOCK_POLLS.with(|l| l.set(lp));
+                NESTED_SWAPS.with(|n| n.set(0));
                 let rec = do_send(&sender, id, sop, &mut rt_slot);
+                LOCK_POLLS.with(|l| l.set(0));
+                let nested_swaps = NESTED_SWAPS.with(|n| n.replace(0));
                 label = format!("{:?} of {}.{}", rec.kind, id.who, id.n);
+                if nested_swaps > 0 && !self.m_pending.is_empty() {
+                    // the receiver swapped before this operation took the lock
+                    let taken = std::mem::take(&mut self.m_pending);
+                    self.m_end.takes.push(taken);
+                }
                 if self.compare {
                     match rec.kind {
                         SendKind::Send => {
@@ -1961,6 +2067,23 @@ impl Seq {
     }
 }
 
+/// Run the next scripted operation from the top level of the sequential driver: the receiver
+/// future is parked where the hook can find it, so that it can be polled while the operation
+/// sits at its lock point.
+fn top_level_op(fut: &mut Option<ExecFut>, lock_polls: u8, recv_exit: &mut Option<u64>) {
+    SEQ_FUT.with(|f| *f.borrow_mut() = fut.take());
+    SEQ_RECV_DONE.with(|d| d.set(false));
+    with_seq(|s| {
+        s.lock_polls = lock_polls;
+        s.do_next_op();
+        s.lock_polls = 0;
+    });
+    *fut = SEQ_FUT.with(|f| f.borrow_mut().take());
+    if SEQ_RECV_DONE.with(|d| d.replace(false)) {
+        *recv_exit = Some(stamp());
+    }
+}
+
 fn with_seq<R>(f: impl FnOnce(&mut Seq) -> R) -> R {
     SEQ.with(|s| f(s.borrow_mut().as_mut().expect("sequential driver installed")))
 }
@@ -2010,7 +2133,7 @@ pub fn run_sequential(plan: &Plan) -> History {
             ops,
             g: g.fork(),
             inject_pm: plan.hook.inject_pm,
-            counters: vec![0; plan.senders.len()],
+            counters: vec![0; plan.senders.len() + 1],
             m_pending: Vec::new(),
             m_end: ModelEnd::default(),
             compare: true,
@@ -2021,6 +2144,7 @@ pub fn run_sequential(plan: &Plan) -> History {
             snapshots: 0,
             injected: 0,
             steps: 0,
+            lock_polls: 0,
         })
     });
 
@@ -2068,9 +2192,59 @@ pub fn run_sequential(plan: &Plan) -> History {
                 with_seq(|s| s.compare = false);
             }
         } else {
-            with_seq(|s| s.do_next_op());
+            let lp = if g.chance(1, 4) { g.range(1, 3) as u8 } else { 0 };
+            top_level_op(&mut fut, lp, &mut recv_exit);
         }
     }
+
+    // quiescence rounds: one last sender operation (the receiver may run while it sits before
+    // its lock), then nothing but receiver polls until it has begun K further idle waits
+    let mut quiesce: Vec<QRec> = Vec::new();
+    if fut.is_some() && recv_dropped_early.is_none() {
+        let tail_role = ROLE_SENDER0 + plan.senders.len() as u8;
+        let flush_role = ROLE_FLUSHER0 + plan.flushers.len() as u8;
+        for t in &plan.tail {
+            with_seq(|s| s.ops.push_back(SeqOp { role: tail_role, kind: SeqKind::S(t.op) }));
+            let lp = match t.aim {
+                TailAim::AtLock(n) => n,
+                _ => 0,
+            };
+            top_level_op(&mut fut, lp, &mut recv_exit);
+            let (item, op, accepted) = with_seq(|s| {
+                let r = s.sends.last().expect("tail operation recorded");
+                (r.id, r.kind, r.accepted)
+            });
+            let flush = if t.flush {
+                with_seq(|s| s.ops.push_back(SeqOp { role: flush_role, kind: SeqKind::F(FOp::Callback) }));
+                top_level_op(&mut fut, 0, &mut recv_exit);
+                Some(with_seq(|s| s.flushes.len() - 1))
+            } else {
+                None
+            };
+            let after = stamp();
+            let base = sc.idle_steps.load(SeqCst);
+            let mut q = None;
+            for _ in 0..5_000 {
+                if fut.is_none() {
+                    break;
+                }
+                if poll_once(&mut fut, &mut polls) {
+                    recv_exit = Some(stamp());
+                    break;
+                }
+                if sc.idle_steps.load(SeqCst) >= base + QUIESCE_IDLE_STEPS {
+                    q = Some(stamp());
+                    break;
+                }
+            }
+            let seen = sc.idle_steps.load(SeqCst) - base;
+            quiesce.push(QRec { after, q, idle_steps_seen: seen, item, op, accepted, aim: t.aim, flush });
+            if q.is_none() {
+                break;
+            }
+        }
+    }
+
     for _ in 0..g.below(6) {
         if poll_once(&mut fut, &mut polls) {
             recv_exit = Some(stamp());
@@ -2144,6 +2318,7 @@ pub fn run_sequential(plan: &Plan) -> History {
         stuck,
         model: None,
         panics: take_panics(uid),
+        quiesce,
     };
     h.model = Some(seq.m_end);
     h
